@@ -174,6 +174,31 @@ def analyse(rows):
         la = new
     li, lo = solve(la, ue)
     problems = []
+    # recursion: a value that is live across a call which can re-enter the calling procedure is overwritten by the inner
+    # activation if that activation defines the same virtual register (same register by construction)
+    callees = {e: {call_at[k] for k in body[e] if k in call_at} for e in entries}
+
+    def reach(e):
+        seen, stack = set(), list(callees[e])
+        while stack:
+            q = stack.pop()
+            if q in seen:
+                continue
+            seen.add(q)
+            stack.extend(callees.get(q, ()))
+        return seen
+
+    reach_of = {e: reach(e) for e in entries}
+    for e in entries:
+        if e not in reach_of[e]:
+            continue
+        defs_in_cycle = {dfn[k] for q in reach_of[e] | {e} if e in reach_of.get(q, set()) | {q} for k in body[q] if dfn[k]}
+        for k in sorted(body[e]):
+            if k in call_at and (call_at[k] == e or e in reach_of[call_at[k]]):
+                hit = sorted(v for v in lo[e][k] if v in defs_in_cycle)
+                if hit:
+                    problems.append(f"line {k} ({rows[k]['op']} ...) re-enters the procedure at line {e} while {hit[0]} is live across the call: the inner activation writes the same register")
+                    break
     for v, ps in phys.items():
         if len(ps) > 1:
             problems.append(f"virtual register {v} is mapped to several physical registers {sorted(ps)}")
